@@ -13,6 +13,7 @@ import math
 
 from mc import alpha
 from mc.env import guard
+from mc.state import seq, is_index
 from tracklib.core.track import Track
 from tracklib.core.obs import Obs
 from tracklib.core.obs_coords import ENUCoords
@@ -65,6 +66,7 @@ SPLITS3 = [(3,), (2, 1), (1, 1, 1)]
 SPLITS4 = [(2, 2), (1, 3)]
 
 OBLIGATIONS = {
+    "summarize_after_a_refused_request": "a collection summarised right after a request that was refused (a track without the requested feature) in the same process",
     "track_built_from_copied_observations": "a collection holding a track and a span extracted from it, or a track closed with loop(add=True), valued afterwards",
     "grid_wider_than_256_cells": "a grid with more than 256 columns (5 x 4 extent, columns of 1/64) was summarised and probed with getCell",
     "second_feature_interleaved": "a second (unit) feature was requested between the maps of the first one and its count / sum per cell judged",
@@ -165,6 +167,13 @@ def _collection(variant, tracks, build="fresh"):
                 t.createAnalyticalFeature("h", 99.0)
             out.append(_feat(t, variant, f))
         return TrackCollection(out)
+    if build == "after-a-refused-request":
+        # a request that is refused first: a collection whose second track does not carry the requested feature (and one with
+        # an observation outside the grid it is added to); then the ordinary collection, built as always
+        bad = TrackCollection([_track(variant, tracks[0], 0), _bare(variant, tracks[-1], 1)])
+        guard(summarize, bad, ["v"], [co_count], (1.0, 1.0), 0.0, False)
+        guard(summarize, bad, ["v", "v"], [co_sum, co_count], (2.0, 0.5), 0.25, False)
+        return TrackCollection([_track(variant, f, k) for k, f in enumerate(tracks)])
     if build == "loop":
         base = _bare(variant, tracks[1][:-1], 1)
         base.loop(add=True)
@@ -228,11 +237,11 @@ def _cell_of(r, G, x, y, case, ctx):
     if st != "ok":
         ctx.violation("getCell/%s/%s" % (cls, "raises" if st == "exc" else "does-not-return"), case, dict(det, error=c))
         return None
-    if not (isinstance(c, (tuple, list)) and len(c) == 2 and all(isinstance(v, int) and not isinstance(v, bool) for v in c)):
+    if not (seq(c) is not None and len(c) == 2 and all(is_index(v) for v in seq(c))):
         det["got"] = repr(c)
         ctx.violation("getCell/%s/no-cell-for-a-point-of-the-extent" % cls, case, det)
         return None
-    c = (c[0], c[1])
+    c = (int(c[0]), int(c[1]))
     if not (0 <= c[0] < G["ncol"] and 0 <= c[1] < G["nrow"]):
         ctx.violation("getCell/%s/cell-outside-grid" % cls, case, det)
         return None
@@ -310,10 +319,12 @@ def _read_grid(r, name, G):
     st, g = guard(lambda: r.getAFMap("v#co_" + name).grid)
     if st != "ok":
         return None
-    if not isinstance(g, list) or len(g) != G["nrow"]:
+    g = seq(g)
+    if g is None or len(g) != G["nrow"]:
         return None
+    g = [seq(row) for row in g]
     for row in g:
-        if not isinstance(row, list) or len(row) != G["ncol"]:
+        if row is None or len(row) != G["ncol"]:
             return None
     return g
 
@@ -378,7 +389,7 @@ def check_summ(variant, tracks, res, margin, ctx, order="listed", build="fresh")
         ctx.oblige("aggregates_in_reversed_order")
     if build != "fresh":
         case["build"] = build
-        ctx.oblige("track_built_from_copied_observations")
+        ctx.oblige("summarize_after_a_refused_request" if build == "after-a-refused-request" else "track_built_from_copied_observations")
     resolution = _res(variant, res)
     col = _collection(variant, tracks, build)
     fixes = []
@@ -493,8 +504,8 @@ def check_summ(variant, tracks, res, margin, ctx, order="listed", build="fresh")
         # the unit feature: its count and its sum per cell are the number of observations located there
         for mname in ("w#co_count", "w#co_sum"):
             stw, gw = guard(lambda: r.getAFMap(mname).grid)
-            okw = stw == "ok" and isinstance(gw, list) and len(gw) == G["nrow"] and \
-                all(isinstance(row, list) and len(row) == G["ncol"] for row in gw)
+            gw = [seq(row) for row in seq(gw)] if stw == "ok" and seq(gw) is not None else None
+            okw = gw is not None and len(gw) == G["nrow"] and all(row is not None and len(row) == G["ncol"] for row in gw)
             if not okw:
                 ctx.violation("summarize/second-feature/malformed-grid", case, {"map": mname})
                 return nontrivial
@@ -643,6 +654,8 @@ def run_shard(shard, ctx):
             for a, b, c in itertools.product(vals, repeat=3):
                 ctx.case(bool(check_summ(v, [diag, [(p[0], p[1], a), (q[0], q[1], b), (p[0], p[1], c)]], res, margin, ctx, "listed", "loop")))
                 ctx.case(bool(check_summ(v, [diag, [(p[0], p[1], a), (q[0], q[1], b)], [(p[0], p[1], c)]], res, margin, ctx, "listed", "ranks")))
+                ctx.case(bool(check_summ(v, [diag, [(p[0], p[1], a), (q[0], q[1], b)], [(q[0], q[1], c)]], res, margin, ctx, "listed",
+                                         "after-a-refused-request")))
                 for d in vals:
                     ctx.case(bool(check_summ(v, [diag, [(p[0], p[1], a), (q[0], q[1], b)], [(p[0], p[1], c), (q[0], q[1], d)]],
                                              res, margin, ctx, "reversed" if a != a else "listed", "span")))
